@@ -473,6 +473,25 @@ class Link:
             return
         self.transport._deliver(kind, data)
 
+    def send_glued_eof(self, data):
+        """Server writes `data` and closes at once, and the client's protocol gets both in ONE callback
+        (data_received immediately followed by eof_received, as with a TLS record + close_notify or a FIN
+        that is already queued when the socket is read) - the reader task cannot run in between."""
+        if self.severed or self.server_gone or self.client_gone:
+            return
+        self.server_gone = True
+        self._frames = []
+        loop = self.net.loop
+        when = max(self._s2c_t + EPS, loop.time() + self.net.latency("s2c", self))
+        self._s2c_t = when
+        self.net.call_at(when, self._client_receive_glued, data)
+
+    def _client_receive_glued(self, data):
+        if self.severed or self.transport is None:
+            return
+        self.transport._deliver("data", data)
+        self.transport._deliver("eof", b"")
+
     def close(self):
         """Server closes (FIN): client sees EOF after data already queued."""
         if self.server_gone:
